@@ -75,9 +75,11 @@ econf_err getIntValueNum(econf_file key_file, size_t num, int32_t *result) {
   if (key_file.file_entry[num].value == NULL)
     return ECONF_KEY_HAS_NULL_VALUE;
   errno = 0;
-  *result = strtol(key_file.file_entry[num].value, &endptr, 0);
-  if (endptr == key_file.file_entry[num].value || errno == ERANGE || (errno != 0 && *result == 0))
+  long value = strtol(key_file.file_entry[num].value, &endptr, 0);
+  if (endptr == key_file.file_entry[num].value || errno == ERANGE || (errno != 0 && value == 0) ||
+      value < INT32_MIN || value > INT32_MAX)
     return ECONF_VALUE_CONVERSION_ERROR;
+  *result = (int32_t) value;
   return ECONF_SUCCESS;
 }
 
@@ -97,9 +99,11 @@ econf_err getUIntValueNum(econf_file key_file, size_t num, uint32_t *result) {
   if (key_file.file_entry[num].value == NULL)
     return ECONF_KEY_HAS_NULL_VALUE;
   errno = 0;
-  *result = strtoul(key_file.file_entry[num].value, &endptr, 0);
-  if (endptr == key_file.file_entry[num].value || errno == ERANGE || (errno != 0 && *result == 0))
+  unsigned long value = strtoul(key_file.file_entry[num].value, &endptr, 0);
+  if (endptr == key_file.file_entry[num].value || errno == ERANGE || (errno != 0 && value == 0) ||
+      value > UINT32_MAX)
     return ECONF_VALUE_CONVERSION_ERROR;
+  *result = (uint32_t) value;
   return ECONF_SUCCESS;
 }
 
